@@ -1,5 +1,7 @@
 import Pyrealb.Driver.Proto
-import Pyrealb.Model.Number
+import Pyrealb.Model.NumberNO
+/-! Line protocol of the `number` family (ops `spell`, `ordinal`, `roman`, `no`).  Integers travel as decimal
+strings (no 2^53 limit of JSON readers). -/
 namespace Pyrealb.Driver.NumberOps
 open Lean Pyrealb Pyrealb.Driver Pyrealb.Number
 
@@ -7,12 +9,12 @@ def getLang (j : Json) : Except String Lang := do
   let l ← getStr j "lang"
   if l = "en" then pure .en else if l = "fr" then pure .fr else throw s!"bad lang {l}"
 
-/-- integers travel as decimal strings (no 2^53 limit of JSON readers) -/
-def getBigInt (j : Json) (k : String) : Except String Int := do
-  let x ← getStr j k
+def parseInt (x : String) : Except String Int :=
   match x.toInt? with
   | some n => pure n
   | none => throw s!"bad integer {x}"
+
+def getBigInt (j : Json) (k : String) : Except String Int := do parseInt (← getStr j k)
 
 def resJson : Except Crash Str → Json
   | .ok r => Json.mkObj [("r", strJson r)]
@@ -29,6 +31,86 @@ def ordinalOp : Handler := fun j => do
 def romanOp : Handler := fun j => do
   pure (resJson (roman (← getBigInt j "n")))
 
-def ops : List (String × Handler) := [("spell", spellOp), ("ordinal", ordinalOp), ("roman", romanOp)]
+/-- `{"t":"int","v":"12"}` | `{"t":"flt","neg":false,"m":"15","k":1,"repr":"1.5"}` | `{"t":"special","repr":"inf"}` -/
+def getVal (j : Json) : Except String Val := do
+  let t ← getStr j "t"
+  if t = "int" then pure (.int (← getBigInt j "v"))
+  else if t = "flt" then do
+    let m ← getBigInt j "m"
+    pure (.flt (← getBool j "neg") m.toNat (← getNat j "k") (← getStr j "repr").toList)
+  else if t = "special" then pure (.special (← getStr j "repr").toList)
+  else throw s!"bad value kind {t}"
+
+def getLemma (j : Json) : Except String LemmaIn := do
+  let t ← getStr j "t"
+  if t = "other" then pure .other
+  else if t = "str" then do
+    let x ← getStr j "s"
+    let lex ← match getOpt j "lex" with
+      | none => pure none
+      | some l => do pure (some ({ value := (← getVal (← l.getObjVal? "value")), isA := (← getBool l "A") } : LexNum))
+    let flo ← match getOpt j "flo" with
+      | none => pure none
+      | some f => do pure (some (← getVal f))
+    pure (.str x.toList lex flo)
+  else do
+    let v ← getVal j
+    match v with
+    | .int i => pure (.int i)
+    | v => pure (.flt v)
+
+def getOptVal (j : Json) : OptVal :=
+  match j with
+  | .bool b => .bool b
+  | .num n => if n.exponent = 0 then .int n.mantissa else .other
+  | _ => .other
+
+/-- `"calls":[["dOpt",[["nat",true],["mprecision",3]]],["nat",true]]` -/
+def applyCalls (no : NO) (w : Nat) : List Json → Except String (Except Crash (NO × Nat))
+  | [] => pure (.ok (no, w))
+  | c :: cs => do
+    let a ← c.getArr?
+    match a.toList with
+    | [Json.str "dOpt", Json.arr kvs] => do
+      let pairs ← kvs.toList.mapM (fun kv => do
+        let p ← kv.getArr?
+        match p.toList with
+        | [Json.str k, v] => pure (k.toList, getOptVal v)
+        | _ => throw "bad dOpt pair")
+      match setDOpt no.dOpt pairs with
+      | .error e => pure (.error e)
+      | .ok (d, w') => applyCalls { no with dOpt := d } (w + w') cs
+    | [Json.str "dOptBad"] => applyCalls no (w + 1) cs          -- `.dOpt(<not a dict>)`
+    | [Json.str "nat", v] =>
+      match getOptVal v with
+      | .bool b => applyCalls { no with dOpt := { no.dOpt with nat := some b } } w cs
+      | _ => applyCalls no (w + 1) cs
+    | _ => throw "bad call"
+
+def gnumJson : GNum → Json
+  | .s => Json.str "s"
+  | .p => Json.str "p"
+
+def noOp : Handler := fun j => do
+  let ℓ ← getLang j
+  let lem ← getLemma (← j.getObjVal? "lemma")
+  match mkNO ℓ lem with
+  | .error e => pure (Json.mkObj [("err", Json.str e.name)])
+  | .ok (no, w) =>
+    let calls ← getArr j "calls"
+    match (← applyCalls { no with g := getGender j } w calls.toList) with
+    | .error e => pure (Json.mkObj [("err", Json.str e.name)])
+    | .ok (no, w) =>
+    match realNO no with
+    | .error e => pure (Json.mkObj [("err", Json.str e.name)])
+    | .ok (r, w', n) =>
+      -- `gn`: what `grammaticalNumber()` answers before realization (the number an NP gives its noun)
+      let gn := match gramNumber no with
+        | .ok g => gnumJson g
+        | .error e => Json.str e.name
+      pure (Json.mkObj [("r", strJson r), ("w", toJson (w + w')), ("n", gnumJson n), ("gn", gn)])
+
+def ops : List (String × Handler) :=
+  [("spell", spellOp), ("ordinal", ordinalOp), ("roman", romanOp), ("no", noOp)]
 
 end Pyrealb.Driver.NumberOps
